@@ -129,6 +129,14 @@ def _distance(ctx):
     return ctx._distance
 
 
+def _scope(ctx):
+    try:
+        from . import delta
+        return delta.scope(ctx.prop)
+    except Exception:
+        return []
+
+
 def summarise(ctx, known):
     """-> (exit_code, lines, stats)
 
@@ -234,6 +242,7 @@ def write_evidence(ctx, stats, wall, tier, seed, selftest=None, path=None):
         'exhaustive': False,
         'desugaring': {'log': list(getattr(ctx.repo, 'desugar_log', []))[:60],
                        'explanation': 'newer-Python spellings (assignment/conditional expressions, tuple, starred and chained assignment, one-field unpacking, BytesIO/suppress context managers, extend(generator)) are first lowered to the statements they abbreviate (lower.py, exact under syntactic side conditions); edits that introduce names the confirmed vocabulary (pblint/inventory.json) does not know - new helpers, constants, temporaries - are inlined before the rules run, and statements whose spelling the inventory does not have are read as the confirmed statement with the same normal form (restore.py: guards by linear normal form / formula equivalence with evaluation order kept, arithmetic normal forms, positional calls, else-after-exit, nested ifs, zero-trip guards); empty on the confirmed tree'},
+        'scope': {'functions': _scope(ctx), 'explanation': 'functions compared statement by statement with the confirmed tree by DELTA (Z2) and TOKEN (Z3): the ones the property\'s anchors name, the other methods of their classes, and what they call by name'},
         'structural_distance': {'per_file': {k: v for k, v in _distance(ctx)[0].items() if v}, 'limit': MAX_DISTANCE,
                                 'explanation': 'statements by which the known functions differ from the confirmed tree; a VIOLATED instance is reported as a violation only within the limit, as UNDECIDED beyond it'},
     }
